@@ -392,6 +392,10 @@ def run_check(prop, tier, replay=None, label=None):
         binary = vlib.build_harness(workdir)
         if replay is not None:
             rp = json.load(open(replay))["replay"]
+            if rp.get("kind") == "suite":      # a history of one of the repository's own tests: run them again
+                import check_suite
+                check_suite.suite_phase(run, tier, workdir)
+                return run.finish()
             if rp.get("kind") == "cache":
                 raise vlib.Infra("replay of a cache history: re-run the full C04 check (histories are regenerated by TLC)")
             sc = rp["scenario"]
@@ -403,7 +407,10 @@ def run_check(prop, tier, replay=None, label=None):
             def cache_job():
                 try:
                     proof_phase(run, tier, workdir)
-                    cache_res.append(cache_phase(run, tier, workdir, binary))
+                    d = cache_phase(run, tier, workdir, binary)
+                    import check_suite
+                    d += check_suite.suite_phase(run, tier, workdir)     # the repository's own tests, traced
+                    cache_res.append(d)
                 except Exception as e:
                     cache_res.append(e)
             cache_th = threading.Thread(target=cache_job)
